@@ -1,6 +1,14 @@
 mod c36;
+mod c37;
+mod c38;
+mod c39;
 use vkit::{Check, Level};
 fn main() {
-    let checks: &[Check] = &[Check { id: "C36", level: Level::Exploration, run: c36::run }];
+    let checks: &[Check] = &[
+        Check { id: "C36", level: Level::Exploration, run: c36::run },
+        Check { id: "C37", level: Level::Exploration, run: c37::run },
+        Check { id: "C38", level: Level::Exploration, run: c38::run },
+        Check { id: "C39", level: Level::Exploration, run: c39::run },
+    ];
     vkit::main(checks);
 }
